@@ -13,6 +13,7 @@ I_ = IntSort
 B_ = BoolSort
 
 # ---- base64url -------------------------------------------------------------------------------
+ASCII_RE = z3.Star(z3.Range(chr(0), chr(127)))
 B64U = z3.Function("B64U", S_, S_)                 # RFC 4648 section 5 without padding
 PyB64Ok = z3.Function("PyB64Ok", S_, B_)           # base64.b64decode(s, b"-_", validate=True) accepts s
 PyB64Dec = z3.Function("PyB64Dec", S_, S_)         # ... and its result
@@ -44,6 +45,7 @@ def B64U_app(ctx, x):
         for ch in ("+", "/", "=", ".", " "):
             ctx.axiom(z3.Not(z3.Contains(t, z3.StringVal(ch))), "B64U: output contains no '+', '/', '=', '.', ' '")
         ctx.axiom(z3.Not(z3.SuffixOf(z3.StringVal("="), t)), "B64U: output does not end with '='")
+        ctx.axiom(z3.InRe(t, ASCII_RE), "B64U: output is ASCII")
     return t
 
 
